@@ -317,6 +317,7 @@ int main(int argc, char **argv) {
       if (!handle_violation(e, engine, p, &o, cfg.prop, cfg.seed, replaydir, do_shrink)) flaky++; else viols++;
     }
   }
+  if (const char *cd = getenv("VERIF_COVDUMP")) { extern void cov_dump(const char *); cov_dump(fmt("%s.%d", cd, (int)getpid()).c_str()); }
   if (!hashfile.empty()) { FILE *f = fopen(hashfile.c_str(), "wb"); if (f) { for (auto h : nt_hashes) fwrite(&h, 8, 1, f); fclose(f); } }
   g_stats.c["cov.edges_hit"] = cov_count(); g_stats.c["cov.edges_total"] = cov_total();
   std::string js = "{";
